@@ -148,8 +148,9 @@ def run(ctx, chk):
     if adt is None:
         raise AnchorMissing("ADT rawdb::DatabaseInner not found")
     fn_ = [f["name"] for f in adt["variants"][0]["fields"]]
-    chk.oblige("B18.7 DatabaseInner drops `regions` (its locked file) before `file` (the locked data file): field order %s"
-               % fn_, "file" in fn_ and "regions" in fn_ and fn_.index("regions") < fn_.index("file"),
+    f_file, f_regions = anchors.db_lock_fields(P)      # found by type, whatever they are called
+    chk.oblige("B18.7 DatabaseInner drops `%s` (Regions, with its locked file) before `%s` (the locked data file): field "
+               "order %s" % (f_regions, f_file, fn_), fn_.index(f_regions) < fn_.index(f_file),
                key="B18.7|DatabaseInner|drop-order",
                msg="if the data file is unlocked first, an open() racing with the last drop takes the data lock, grows "
                    "and syncs the file, and only then is refused at the regions lock: a refused open modified the files")
